@@ -87,7 +87,72 @@ fn gen_tree(rng: &mut rand_chacha::ChaCha8Rng, root: &std::path::Path, thorough:
     nodes
 }
 
+/// Deterministic witnesses of the recorded (known) findings for C02: each is one small tree on which create + extract does not
+/// reproduce the tree, for a reason that lies in the format or in a design decision (see known_findings.jsonl).
+fn known_witnesses(ctx: &mut Ctx) {
+    use std::os::unix::ffi::OsStrExt;
+    let run = |sbx: &Sbx, a: &[&str]| run_pna(sbx, &sbx.root, a, None, 60, &[]);
+    // 1. a modification time before 1970: times are stored as unsigned seconds since the epoch
+    {
+        let sbx = Sbx::new("tree-w", 1);
+        std::fs::create_dir_all(sbx.path("t")).unwrap();
+        std::fs::write(sbx.path("t/old.txt"), b"from the sixties").unwrap();
+        set_mtime(&sbx.path("t/old.txt"), -315_619_200); // 1960-01-01
+        let c = run(&sbx, &["--quiet", "create", "a.pna", "-r", "t", "--keep-timestamp"]);
+        let x = run(&sbx, &["--quiet", "extract", "a.pna", "--out-dir", "out", "--keep-timestamp"]);
+        ctx.oracle_eval();
+        use std::os::unix::fs::MetadataExt;
+        let got = std::fs::metadata(sbx.path("out/t/old.txt")).map(|m| m.mtime()).unwrap_or(0);
+        if !(c.ok() && x.ok() && got == -315_619_200) {
+            ctx.violation("C02", "the extracted tree differs from the source tree", json!({"witness":"pre-epoch-mtime","mtime_source":-315_619_200i64,"mtime_extracted":got,"create":c.brief(),"extract":x.brief()}));
+        }
+    }
+    // 2. a symbolic link whose target is not in normal form (`sub/`, `./sub/./deep`): the stored reference is normalised
+    {
+        let sbx = Sbx::new("tree-w", 2);
+        std::fs::create_dir_all(sbx.path("t/sub/deep")).unwrap();
+        std::os::unix::fs::symlink("sub/", sbx.path("t/l1")).unwrap();
+        std::os::unix::fs::symlink("./sub/./deep", sbx.path("t/l2")).unwrap();
+        let c = run(&sbx, &["--quiet", "create", "a.pna", "-r", "t"]);
+        let x = run(&sbx, &["--quiet", "extract", "a.pna", "--out-dir", "out"]);
+        ctx.oracle_eval();
+        let t1 = std::fs::read_link(sbx.path("out/t/l1")).map(|p| p.to_string_lossy().to_string()).unwrap_or_default();
+        let t2 = std::fs::read_link(sbx.path("out/t/l2")).map(|p| p.to_string_lossy().to_string()).unwrap_or_default();
+        if !(c.ok() && x.ok() && t1 == "sub/" && t2 == "./sub/./deep") {
+            ctx.violation("C02", "the extracted tree differs from the source tree", json!({"witness":"link-target-not-in-normal-form","targets_source":["sub/","./sub/./deep"],"targets_extracted":[t1,t2]}));
+        }
+    }
+    // 3. a file name that is not UTF-8: entry names are UTF-8 strings
+    {
+        let sbx = Sbx::new("tree-w", 3);
+        std::fs::create_dir_all(sbx.path("t")).unwrap();
+        let name = std::ffi::OsStr::from_bytes(b"bad\xffname");
+        std::fs::write(sbx.path("t").join(name), b"x").unwrap();
+        let c = run(&sbx, &["--quiet", "create", "a.pna", "-r", "t"]);
+        let x = run(&sbx, &["--quiet", "extract", "a.pna", "--out-dir", "out"]);
+        ctx.oracle_eval();
+        if !(c.ok() && x.ok() && sbx.path("out/t").join(name).exists()) {
+            let got: Vec<String> = std::fs::read_dir(sbx.path("out/t")).map(|d| d.filter_map(|e| e.ok()).map(|e| hexw(e.file_name().as_bytes())).collect()).unwrap_or_default();
+            ctx.violation("C02", "the extracted tree differs from the source tree", json!({"witness":"file-name-not-utf8","name_source":hexw(name.as_bytes()),"names_extracted":got}));
+        }
+    }
+    // 4. a directory given AFTER something inside it (`--keep-dir t/sub/f t/sub`): the directory entry follows its child, the child's
+    //    extraction creates the directory, and the directory entry then meets "already exists"
+    {
+        let sbx = Sbx::new("tree-w", 4);
+        std::fs::create_dir_all(sbx.path("t/sub")).unwrap();
+        std::fs::write(sbx.path("t/sub/f"), b"x").unwrap();
+        let c = run(&sbx, &["--quiet", "create", "a.pna", "--keep-dir", "t/sub/f", "t/sub"]);
+        let x = run(&sbx, &["--quiet", "extract", "a.pna", "--out-dir", "out"]);
+        ctx.oracle_eval();
+        if !(c.ok() && x.ok() && sbx.path("out/t/sub/f").exists()) {
+            ctx.violation("C02", "`pna extract` failed on an archive `pna create` just wrote", json!({"witness":"directory-entry-after-its-child","create":c.brief(),"extract":x.brief()}));
+        }
+    }
+}
+
 pub fn cli_tree(ctx: &mut Ctx) {
+    known_witnesses(ctx);
     let mut rng = rng_for(ctx.seed, "cli-tree");
     ctx.rule = "generated trees (nested and empty directories, empty/small/70-300 KB files, names with unicode, spaces, a leading dash, a leading dot and 200 bytes, symlinks to files, to directories, dangling, with `..` components and absolute; file and directory modes including set-user-ID, set-group-ID and sticky bits) \
                 x {--store,--deflate n,--zstd n,--xz n} x {no password, --aes/--camellia x cbc/ctr x --pbkdf2/--argon2 params} x {--solid} x {--split size} x {file, stdio pipe} x subsets of {--keep-dir,--keep-timestamp,--keep-permission} on either side; \
